@@ -52,6 +52,10 @@ def run(ctx):
             "read model: an `Under` oracle per operation and a finite-map cache",
             "FUSE kernel path, passthrough fd use by the kernel and real concurrency are outside the model "
             "(concurrent readers and passthrough are oracle-only)",
-            "metadata: equality with the tar is proved only for the specification itself (tarView facts); the TOC "
-            "interpreters are tied to tarView by the per-path correspondence and the Go oracle, not by proof",
+            "metadata: proved (metadata_equal_tar_partial) for C05's models of BOTH TOC interpreters (Toc.memTree, "
+            "Toc.dbTree, themselves tied to the real stores by C05's correspondence) on the decidable fragment "
+            "MetaTar.TarOK: which paths exist, type+mode, size, owner, device numbers, symlink target, xattrs, hardlink "
+            "= target's node, implicit parents, duplicates; NOT proved: link counts, archives outside the fragment "
+            "(root entry, directory entry after its content, non-plain spellings, mtime) - those are covered by the "
+            "per-path correspondence (model = tarView) and the Go oracle only",
         ])
